@@ -187,6 +187,12 @@ def _gen_split(rng):
     return ["split", [[n, rng.choice([0, 0, 1, 2, 2, 3]), rng.randint(0, 50)] for n in names]]
 
 
+def _gen_creator(rng):
+    """ModelCreator: a signature + a dict mixing fixed values, Sliders and option dicts"""
+    _, sig, ps = _gen_check(rng)
+    return ["creator", sig, [[n, rng.choice([0, 0, 1, 2, 3]), rng.randint(0, 50)] for n in ps]]
+
+
 def _gen_layer_op(rng):
     vmin = vmax = None
     if rng.random() < 0.5:
@@ -239,16 +245,24 @@ def _gen_case(rng, cls=None, nops=None):
             ops.append(["collect"])
         elif r < 0.88 and layer is not None:
             ops.append(_gen_layer_op(rng))
-        elif r < 0.96:
+        elif r < 0.94:
             ops.append(_gen_check(rng))
+        elif r < 0.97:
+            ops.append(_gen_creator(rng))
         else:
             ops.append(_gen_split(rng))
-    return {"space": sp, "portrayal": pt, "layer": layer, "ops": ops}
+    c = {"space": sp, "portrayal": pt, "layer": layer, "ops": ops}
+    if rng.random() < 0.2:
+        c["shared_dict"] = True      # the portrayal function returns one cached dict per agent kind
+    return c
 
 
 def _gen_pure_case(rng, n):
     """signatures / parameter dicts only (cheap: no drawing)"""
-    ops = [(_gen_check(rng) if rng.random() < 0.85 else _gen_split(rng)) for _ in range(n)]
+    ops = []
+    for _ in range(n):
+        r = rng.random()
+        ops.append(_gen_check(rng) if r < 0.6 else _gen_creator(rng) if r < 0.85 else _gen_split(rng))
     return {"space": {"cls": "SingleGrid", "w": 1, "h": 1, "draw_grid": False}, "portrayal": [[None] * 4], "layer": None, "ops": ops}
 
 
@@ -320,6 +334,10 @@ def enumerate_cases(tier, broken=False):
     keys = ["a", "kwargs", "options", "b"]
     subsets = [list(s) for r in range(len(keys) + 1) for s in itertools.combinations(keys, r)]
     ops = [["check", s, ps] for s in sigs for ps in subsets]
+    for s in _sig_universe(1):
+        for ps in subsets[:8]:
+            for tag in (0, 1, 2):
+                ops.append(["creator", s, [[n, tag, 3] for n in ps]])
     for s in range(0, len(ops), 40):
         c = _gen_pure_case(rng, 0)
         c["ops"] = ops[s:s + 40]
@@ -651,8 +669,11 @@ def run_impl(case):
     agents = {}      # id -> agent object (in the space)
     shadow = {}      # id -> (kind, x, y)   address as in the history
 
-    def portrayal_fn(agent):
-        d = pt[agent._vkind] if agent._vkind < len(pt) else [None] * 4
+    shared = bool(case.get("shared_dict"))
+    cache = {}       # kind -> the ONE dict object a caching portrayal returns for that kind
+
+    def fresh_dict(k):
+        d = pt[k] if k < len(pt) else [None] * 4
         out = {}
         if d[0] is not None:
             out["size"] = d[0]
@@ -663,6 +684,26 @@ def run_impl(case):
         if d[3] is not None:
             out["zorder"] = d[3]
         return out
+
+    def portrayal_fn(agent):
+        if not shared:
+            return fresh_dict(agent._vkind)
+        if agent._vkind not in cache:
+            cache[agent._vkind] = fresh_dict(agent._vkind)
+        return cache[agent._vkind]
+
+    def mutated(i, where):
+        """a portrayal function may return the same dict object for many agents / calls; the drawing code must not change it"""
+        bad = [k for k, d in cache.items() if d != fresh_dict(k)]
+        if bad:
+            k = bad[0]
+            fail(f"C20/{where}/portrayal-dict-mutated", i,
+                 f"{case['ops'][i]} on {cls}: the dict returned by agent_portrayal for kind {k} was {fresh_dict(k)} and is now {cache[k]} "
+                 "(the caller's dict was modified; later agents / draws of a portrayal that reuses its dicts are shown with other values)")
+            for k in bad:
+                cache[k] = fresh_dict(k)
+            return True
+        return False
 
     def occupied(x, y):
         return any((sx, sy) == (x, y) for (_, sx, sy) in shadow.values())
@@ -725,6 +766,8 @@ def run_impl(case):
 
     def check_collect(i, rows):
         exp = _expected_marks(sp, pt, shadow, drawn=False)
+        if mutated(i, "collect"):
+            return
         if sorted(rows) != exp:
             fail("C20/collect/markers-differ", i,
                  f"collect_agent_data on {cls} with agents {shadow} (id: kind, address) and portrayal table {pt}: rows "
@@ -796,13 +839,16 @@ def run_impl(case):
                         continue
                     raise
                 if spring:
-                    rows = _read_markers_spring(ax, sp, space, shadow, pt, i, fail)
+                    dirty = mutated(i, "collect")
+                    rows = _read_markers_spring(ax, sp, space, shadow, pt, i, (lambda *a: None) if dirty else fail)
                     obs.append(_rows_obs(rows))
                     continue
                 rows = _read_markers(ax, sp)
                 obs.append(_rows_obs(rows))
                 exp = _expected_marks(sp, pt, shadow, drawn=True)
-                if sorted(rows) != exp:
+                if mutated(i, "collect"):
+                    pass
+                elif sorted(rows) != exp:
                     fail(f"C20/mpl/{fam}/markers-differ", i,
                          f"draw_space on {cls} {_dims(sp)} with agents {shadow} (id: kind, address), portrayal table {pt}: markers read back from "
                          f"ax.collections [x,y,size_num,size_den,color,marker,zorder] {sorted(rows)}; exactly one per agent at its location as portrayed is {exp}")
@@ -847,7 +893,9 @@ def run_impl(case):
                     rows.append(r)
                 obs.append(_rows_obs(rows))
                 exp = _expected_altair(sp, pt, shadow)
-                if sorted(rows) != exp:
+                if mutated(i, "altair"):
+                    pass
+                elif sorted(rows) != exp:
                     fail(f"C20/altair/{fam}/rows-differ", i,
                          f"altair _draw_grid on {cls} {_dims(sp)} with agents {shadow}, portrayal table {pt}: chart.data.values rows "
                          f"[x,y,(has,value) for size,color,marker,zorder] {sorted(rows)}; one per agent at its location as portrayed is {exp}")
@@ -930,18 +978,51 @@ def run_impl(case):
                 if not accepted and must_accept:
                     fail("C20/check_model_params/callable-refused", i,
                          f"_check_model_params refuses {sorted(params)} for `{sigtxt}` (error kind {obs[-1][1]}) although M(**params) is a valid keyword call")
+            elif kind == "creator":
+                import solara
+
+                from mesa.visualization.solara_viz import ModelCreator
+
+                _, sig, items = op
+                M, src = _make_sig_class(sig)
+                params = _param_dict(items, Slider, widgets=True)
+                names = {n: 1 for n in params}
+                try:
+                    M(**names)
+                    callable_ = True
+                except TypeError:
+                    callable_ = False
+                has_varpos = any(k == "VarPos" for _, k, _ in sig)
+                must_accept = callable_ and not has_varpos
+                inst = object.__new__(M)
+
+                @solara.component
+                def _T(inst=inst, params=params):
+                    ModelCreator(solara.reactive(inst), params)
+
+                try:
+                    _, rc = solara.render(_T(), handle_error=False)
+                    rc.close()
+                    obs.append([0])
+                    accepted = True
+                except ValueError as e:
+                    k = _check_kind(e)
+                    if k == 99:
+                        raise
+                    obs.append([-1, k])
+                    accepted = False
+                sigtxt = src.splitlines()[1].strip()
+                if accepted and not must_accept:
+                    fail("C20/ModelCreator/uncallable-accepted", i,
+                         f"ModelCreator's parameter check accepts user_params {_show(items)} for `{sigtxt}` although M(**values) raises TypeError"
+                         + (" / has *args" if has_varpos else ""))
+                if not accepted and must_accept:
+                    fail("C20/ModelCreator/callable-refused", i,
+                         f"ModelCreator's parameter check refuses user_params {_show(items)} for `{sigtxt}` (error kind {obs[-1][1]}) although "
+                         f"M(**{{name: value}}) with the fixed values and the initial values of the adjustable ones is a valid keyword call")
             elif kind == "split":
                 items = op[1]
-                params = {}
-                for n, tag, v in items:
-                    if tag == 0:
-                        params[n] = v
-                    elif tag == 1:
-                        params[n] = Slider(n, value=v, min=0, max=100)
-                    elif tag == 2:
-                        params[n] = {"type": ["SliderInt", "Select", "Checkbox", "InputText"][v % 4], "value": v}
-                    else:
-                        params[n] = {"value": v}
+                params = _param_dict(items, Slider)
                 inp, fixed = split_model_params(params)
 
                 def rows_of(d):
@@ -981,6 +1062,30 @@ def run_impl(case):
             fail(f"C20/{kind}/{fam}/unexpected-exception", i,
                  f"{op} on {cls} {_dims(sp)} with agents {shadow} raised {type(e).__name__}: {e} :: {traceback.format_exc()[-600:]}")
     return {"obs": obs, "failures": failures, "model": not spring}
+
+
+def _param_dict(items, Slider, widgets=False):
+    """[name, tag, payload] -> model_params dict: 0 fixed value, 1 Slider, 2 dict with "type", 3 dict without"""
+    params = {}
+    for n, tag, v in items:
+        if tag == 0:
+            params[n] = v
+        elif tag == 1:
+            params[n] = Slider(n, value=v, min=0, max=100)
+        elif tag == 2:
+            if widgets:   # rendered by UserInputs: needs complete options
+                params[n] = [{"type": "SliderInt", "value": v, "min": 0, "max": 100, "step": 1},
+                             {"type": "Checkbox", "value": bool(v % 2)},
+                             {"type": "InputText", "value": str(v)}][v % 3]
+            else:
+                params[n] = {"type": ["SliderInt", "Select", "Checkbox", "InputText"][v % 4], "value": v}
+        else:
+            params[n] = {"value": v}
+    return params
+
+
+def _show(items):
+    return {n: ["fixed", "Slider", "dict(type=..)", "dict()"][t] for n, t, _ in items}
 
 
 def _dims(sp):
@@ -1130,9 +1235,12 @@ def _coq_op(op):
     if k == "check":
         sig = [_coq_param("self", "PosOrKw", False)] + [_coq_param(*p) for p in op[1]]
         return f"Check {L.lst(sig)} {L.zlist([NAMES.index(n) for n in op[2]])}"
+    tags = ["VFixed", "VSlider", "VDictType", "VDictNoType"]
     if k == "split":
-        tags = ["VFixed", "VSlider", "VDictType", "VDictNoType"]
         return "Split " + L.lst([f"({NAMES.index(n)}, {tags[t]} {L.z(v)})" for n, t, v in op[1]])
+    if k == "creator":
+        sig = [_coq_param("self", "PosOrKw", False)] + [_coq_param(*p) for p in op[1]]
+        return f"Creator {L.lst(sig)} " + L.lst([f"({NAMES.index(n)}, {tags[t]} {L.z(v)})" for n, t, v in op[2]])
     raise ValueError(k)
 
 
@@ -1159,7 +1267,7 @@ def op_kinds(case):
 
 def nontrivial(case):
     obs = case.get("_obs", [])
-    draws = [o for op, o in zip(case["ops"], obs) if op[0] in ("mpl", "altair", "collect", "layer", "check", "split") and o and o[0] not in (-2,)]
+    draws = [o for op, o in zip(case["ops"], obs) if op[0] in ("mpl", "altair", "collect", "layer", "check", "split", "creator") and o and o[0] not in (-2,)]
     return len(case["ops"]) >= 3 and len(draws) >= 1
 
 
